@@ -377,18 +377,35 @@ StepUse(st, fr, it) ==
 
 \* file named by a macro: the trimmed, unquoted expansion text
 Unquote(s) == IF Len(s) >= 2 /\ SubSeq(s, 1, 1) = "\"" /\ SubSeq(s, Len(s), Len(s)) = "\"" THEN SubSeq(s, 2, Len(s) - 1) ELSE s
-MacroFileName(st, name) ==
-  LET i == DefIdx(st.defs, name) IN
-  IF i = 0 \/ st.defs[i].none \/ st.defs[i].b = <<>> THEN ""
-  \* (a // comment or a line continuation behind the name is no part of it: the text is trimmed before it is unquoted)
-  ELSE Unquote(TokText(SelectSeq(st.defs[i].b[1].toks, LAMBDA t : t.k \notin {"lcmt", "cont", "cmt"})))
+\* Big-step expansion of the usage that names the file: nested usages are expanded against the current table, each level
+\* counts as one level of macro resolution (the same counter as every other expansion); // comments and line continuations
+\* are no part of the text.  (Formals are not substituted here: the generators name files through formal-less macros.)
+RECURSIVE NameToks(_, _, _), NameOfUse(_, _, _)
+NameErr(e) == [ok |-> FALSE, err |-> e, text |-> ""]
+NameToks(defs, toks, depth) ==
+  IF toks = <<>> THEN [ok |-> TRUE, err |-> <<>>, text |-> ""]
+  ELSE LET h == Head(toks) IN
+       IF h.k \in {"lcmt", "cont", "cmt"} THEN NameToks(defs, Tail(toks), depth)
+       ELSE IF h.k = "use" THEN
+            LET e == NameOfUse(defs, h.n, depth) IN
+            IF ~e.ok THEN e
+            ELSE LET r == NameToks(defs, Tail(toks), depth) IN IF ~r.ok THEN r ELSE [r EXCEPT !.text = e.text \o @]
+       ELSE LET r == NameToks(defs, Tail(toks), depth) IN IF ~r.ok THEN r ELSE [r EXCEPT !.text = h.n \o @]
+NameOfUse(defs, n, depth) ==
+  IF depth > Limit THEN NameErr(<<"ExceedRecursiveLimit">>)
+  ELSE LET i == DefIdx(defs, n) IN
+       IF i = 0 THEN NameErr(<<"DefineNotFound", n>>)
+       ELSE LET d == defs[i] IN
+            IF d.none \/ d.b = <<>> THEN [ok |-> TRUE, err |-> <<>>, text |-> ""]
+            ELSE IF d.a # <<>> THEN NameErr(<<"DefineNoArgs", n>>)
+            ELSE NameToks(defs, d.b[1].toks, depth + 1)
 
 \* Errors of the callee are wrapped in Include at the call site, hence FailDeeper for
 \* everything that is detected on behalf of the included file.
 StepInclude2(st, env, fr, it) ==
-  IF it.f = 2 /\ fr.res + 1 > Limit THEN Fail(st, <<"ExceedRecursiveLimit">>)
-  ELSE IF it.f = 2 /\ DefIdx(st.defs, it.n) = 0 THEN Fail(st, <<"DefineNotFound", it.n>>)
-  ELSE LET name == IF it.f = 2 THEN MacroFileName(st, it.n) ELSE it.n
+  LET nm == IF it.f = 2 THEN NameOfUse(st.defs, it.n, fr.res + 1) ELSE [ok |-> TRUE, err |-> <<>>, text |-> it.n] IN
+  IF ~nm.ok THEN Fail(st, nm.err)
+  ELSE LET name == IF it.f = 2 THEN Unquote(nm.text) ELSE it.n
            p    == Resolve(env, name)
            kind == FsKind(env, p)
        IN IF kind = "none" THEN FailDeeper(st, <<"File", p>>)
